@@ -356,7 +356,8 @@ def c_array(view, bs):
         t = canon(view, term)
         if t[0] == "field" and t[2] == "Ok" and t[1][0] == "call":
             c = view.callee(t[1][1])
-            if c.fn is not None and c.name == "try_into":
+            is_conv = c.fn is not None and (c.name == "try_into" or (c.name == "try_from" and c.self_ty is not None and view.b.crate.types[c.self_ty]["k"] == "array"))
+            if is_conv:
                 src = strip_refs(t[1][3][0]) if t[1][3] else None
                 if src and src[0] == "call" and src[1] in [v[0] for v in colls.values()]:
                     coll = [l for l, v in colls.items() if v[0] == src[1]][0]
@@ -370,7 +371,7 @@ def c_array(view, bs):
                     ob += o2
                     good = True
     if not good:
-        out.append(finding("C06.SEQ", view, "the Ok result is not `Vec<T>::try_into()` of the vector filled element by element"))
+        out.append(finding("C06.SEQ", view, "the Ok result is not the checked conversion (try_into / <[T; N]>::try_from) of the vector filled element by element"))
     return out, ob
 
 
